@@ -1,15 +1,38 @@
-use ascent::ascent_par;
-ascent_par! {
-   struct R;
-   relation e(i32, i32);
-   relation lp(i32);
-   relation sym(i32, i32);
-   lp(x) <-- e(x, x);
-   sym(x, y) <-- e(x, y), e(y, x);
+use ascent::ascent;
+ascent! {
+   struct P;
+   relation sched(i32, i32, i32, i32);
+   relation never();
+   relation step(i32);
+   #[ds(ascent_byods_rels::eqrel)] relation r(i32, i32, i32);
+   relation i000(i32, i32, i32);
+   relation o000(i32, i32, i32);
+   step(0);
+   step(i + 1) <-- step(i), if *i < 2;
+   step(0) <-- r(_, _, _), never();
+   r(k, x, y) <-- step(i), sched(i, k, x, y), if {eprintln!("derive r {} {} {} at step {}", k, x, y, i); true};
+   i000(k, x, y) <-- r(k, x, y), if {eprintln!("read r {} {} {}", k, x, y); true};
+   r(k, x, y) <-- i000(k, x, y), never();
+   o000(k, x, y) <-- r(k, x, y);
+}
+ascent! {
+   struct Q;
+   relation sched(i32, i32, i32, i32);
+   relation never();
+   #[ds(ascent_byods_rels::eqrel)] relation r(i32, i32, i32);
+   relation i000(i32, i32, i32);
+   r(k, x, y) <-- sched(_, k, x, y);
+   i000(k, x, y) <-- r(k, x, y);
+   r(k, x, y) <-- i000(k, x, y), never();
 }
 fn main() {
-   let mut r = R::default();
-   r.e = [(0, 0), (0, 1)].into_iter().collect();
-   r.run();
-   println!("{:?}", r.lp);
+   let mut p = P::default();
+   p.sched = vec![(0, 1, 2, 1)];
+   p.run();
+   println!("P i000={:?} o000={:?}", p.i000, p.o000);
+   let mut q = Q::default();
+   q.sched = vec![(0, 1, 2, 1)];
+   q.run();
+   println!("Q i000={:?}", q.i000);
+   println!("{}", Q::summary());
 }
